@@ -5,12 +5,14 @@
 import HaqqModel.Driver.C12
 import HaqqModel.Driver.C09
 import HaqqModel.Driver.C17
+import HaqqModel.Driver.C13
 
 open Haqq.Driver
 
 structure All where
   c12 : C12.St := {}
   c09 : C09.St := {}
+  c13 : C13.St := {}
 
 def stepLine (st : All) (line : String) : All × String :=
   let toks := (line.trimAscii.toString.splitOn " ").filter (· ≠ "")
@@ -18,6 +20,7 @@ def stepLine (st : All) (line : String) : All × String :=
   | "C12" :: rest => let (s, o) := C12.step st.c12 rest; ({ st with c12 := s }, o)
   | "C09" :: rest => let (s, o) := C09.step st.c09 rest; ({ st with c09 := s }, o)
   | "C17" :: rest => (st, C17.step rest)
+  | "C13" :: rest => let (s, o) := C13.step st.c13 rest; ({ st with c13 := s }, o)
   | _ => (st, "bad-op")
 
 partial def loop (h : IO.FS.Stream) (out : IO.FS.Stream) (st : All) : IO Unit := do
